@@ -5,6 +5,7 @@ import NeatviVerif.Drive.Lbuf
 import NeatviVerif.Drive.Regex
 import NeatviVerif.Drive.Ex
 import NeatviVerif.Drive.ExJudge
+import NeatviVerif.Drive.Vi
 /-!
 Line-protocol driver.  Reads case lines (input + the implementation's observables, as printed by
 the C harnesses) on stdin; for every line recomputes the model's observables and evaluates the
@@ -31,9 +32,11 @@ def judge (stream : String) (kv : KV) : Option Verdict :=
   | "ex04" => some (ExJ.judge 4 kv)
   | "ex06" => some (ExJ.judge 6 kv)
   | "ex14" => some (ExJ.judge 14 kv)
+  | "ex15" => some (ExJ.judge 15 kv)
   | "ex02" => some (ExJ.judge 2 kv)
   | "ex03" => some (ExJ.judge 3 kv)
   | "ex20" => some (ExJ.judge 20 kv)
+  | "vi" => some (ViD.judge 0 kv)
   | "lops04" => some (LbufD.judgeLops 4 kv)
   | "lops02" => some (LbufD.judgeLops 2 kv)
   | "rdwr01" => some (LbufD.judgeRdwr 1 kv)
